@@ -17,6 +17,7 @@ import (
 	"strings"
 	"time"
 
+	"golang.org/x/tools/go/ast/astutil"
 	"golang.org/x/tools/go/types/typeutil"
 	"vcheck/smt"
 	"vcheck/symex"
@@ -231,6 +232,37 @@ func (n *Native) rewrite(ld *Loaded, dir string, overlay map[string]string) erro
 			call.Fun = ast.NewIdent(stub)
 			return true
 		})
+		// method VALUE expressions (x.M not being called) of value-stubbed methods become binder(x)
+		astutil.Apply(f, func(c *astutil.Cursor) bool {
+			sel, ok := c.Node().(*ast.SelectorExpr)
+			if !ok || skipFun[ast.Expr(sel)] {
+				return true
+			}
+			if call, ok := c.Parent().(*ast.CallExpr); ok && call.Fun == ast.Expr(sel) {
+				return true
+			}
+			s := p.TypesInfo.Selections[sel]
+			if s == nil || s.Kind() != types.MethodVal {
+				return true
+			}
+			fn, ok := s.Obj().(*types.Func)
+			if !ok {
+				return true
+			}
+			binder, ok := n.Stubs["value:"+fn.FullName()]
+			if !ok {
+				return true
+			}
+			recv := ast.Expr(sel.X)
+			_, wantPtr := fn.Type().(*types.Signature).Recv().Type().(*types.Pointer)
+			_, havePtr := p.TypesInfo.TypeOf(sel.X).Underlying().(*types.Pointer)
+			if wantPtr && !havePtr {
+				recv = &ast.UnaryExpr{Op: token.AND, X: sel.X}
+			}
+			c.Replace(&ast.CallExpr{Fun: ast.NewIdent(binder), Args: []ast.Expr{recv}})
+			changed = true
+			return false
+		}, nil)
 		if !changed {
 			continue
 		}
